@@ -12,12 +12,16 @@ func init() {
 
 func specC13(l *Loaded, tier string, seed int64) (*Spec, error) {
 	var jobs []*Job
-	kH, kStepSmall, kG := 4, 2, 5
+	kH, kStepSmall, kG := 3, 1, 4
 	if tier == "thorough" {
-		kH, kStepSmall, kG = 5, 3, 7
+		kH, kStepSmall, kG = 4, 2, 6
 	}
 	si := strconv.Itoa
-	for _, g := range [][2]int{{2, 2}, {4, 2}, {2, 3}, {4, 3}} {
+	hist := [][2]int{{2, 2}, {4, 2}, {2, 3}}
+	if tier == "thorough" {
+		hist = append(hist, [2]int{4, 3})
+	}
+	for _, g := range hist {
 		for op0 := 0; op0 < 6; op0++ {
 			jobs = append(jobs, &Job{Pkg: "proc/comp", Fn: "VerifC13History", Key: fmt.Sprintf("history|line%d.lines%d|k%d|op0=%d", g[0], g[1], kH, op0), Choices: []int{op0}, MaxConc: 8,
 				Params: map[string]string{"line": si(g[0]), "lines": si(g[1]), "k": si(kH), "bases": "4", "symaddr": "1"}, MaxPaths: 3_000_000,
@@ -47,8 +51,8 @@ func specC13(l *Loaded, tier string, seed int64) (*Spec, error) {
 			}
 		}
 	}
-	jobs = append(jobs, &Job{Pkg: "proc/comp", Fn: "VerifC13SubLine", Key: "subline|128in64", Params: map[string]string{"line": "128", "sub": "64"}, Covers: []string{"end"}, MaxConc: 8},
-		&Job{Pkg: "proc/comp", Fn: "VerifC13SubLine", Key: "subline|8in4", Params: map[string]string{"line": "8", "sub": "4"}, Covers: []string{"end"}, MaxConc: 8})
+	jobs = append(jobs, &Job{Pkg: "proc/comp", Fn: "VerifC13SubLine", Key: "subline|128in64", Params: map[string]string{"line": "128", "sub": "64", "symaddr": "0"}, Covers: []string{"end"}, MaxConc: 8},
+		&Job{Pkg: "proc/comp", Fn: "VerifC13SubLine", Key: "subline|8in4", Params: map[string]string{"line": "8", "sub": "4", "symaddr": "1"}, Covers: []string{"end"}, MaxConc: 8})
 	for _, cp := range []int{1, 2, 3} {
 		for op0 := 0; op0 < 3; op0++ {
 			jobs = append(jobs, &Job{Pkg: "common/cache", Fn: "VerifC13Generic", Key: fmt.Sprintf("generic|cap%d|k%d|op0=%d", cp, kG, op0), Choices: []int{op0},
